@@ -34,6 +34,27 @@
   else CHECK(post.L + (PS(&pre) - HE(&pre)) == pre.L, "exactly the port slot was removed");
   CHECK(FRAME(F_PORT), "frame: every other component unchanged");
   if (PORT(&pre) != OMIT) REACH("a port was removed");
+#elif defined(OP_CLEAR_PATHNAME)
+  /* internal editor (first half of set_pathname): the path and a '/.' guard are removed, everything else stays */
+  {
+    struct slice pp = g_pathname(&pre);
+    const uint32_t guard = (!inv_has_authority(&pre) && PS(&pre) == PE(&pre) + 2) ? 2 : 0;
+    CHECK(g_pathname(&post).b == g_pathname(&post).e, "path is empty afterwards");
+    CHECK(post.L + (pp.e - pp.b) + guard == pre.L, "exactly the path (and its '/.' guard) was removed");
+    CHECK(FRAME(F_PATH), "frame: every other component unchanged");
+    if (guard && (SS(&pre) != OMIT || HH(&pre) != OMIT)) REACH("a guarded path followed by a query or fragment was removed");
+  }
+#elif defined(OP_UPDATE_SEARCH_ENC)
+  /* internal editor behind set_search: replace the query by '?' + percent-encoding of the (already stripped) value */
+  {
+    uint8_t enc[3 * MM + 1];
+    uint64_t el = ref_percent_encode(I.val, M, inv_is_special(pre.type) ? SET_SPECIAL_QUERY : SET_QUERY, enc);
+    uint32_t b = SS(&post), e = HH(&post) != OMIT ? HH(&post) : post.L;
+    CHECK(b != OMIT && e - b == el + 1, "query slot = '?' + encoded value (length)");
+    if (b != OMIT && e - b == el + 1 && e <= BN) CHECK(h_eq(post.buf + b + 1, enc, el), "query slot = '?' + encoded value (bytes)");
+    CHECK(FRAME(F_SEARCH), "frame: every other component unchanged (in particular the fragment still starts at hash_start)");
+    if (HH(&pre) != OMIT && el > M) REACH("encoded value inserted before a fragment");
+  }
 #elif defined(OP_CLEAR_SEARCH)
   CHECK(SS(&post) == OMIT, "query removed");
   CHECK(FRAME(F_SEARCH), "frame: every other component unchanged");
